@@ -1722,8 +1722,8 @@ impl World {
 		if self.cfg.profile != "deadlines" {
 			return FINAL_CLTV;
 		}
-		const GRID: [u32; 12] = [37, 38, 39, 40, 41, 42, 43, 44, 70, 70, 70, 100];
-		let base = GRID[(amts[0] % 12) as usize];
+		const GRID: [u32; 16] = [2, 3, 4, 5, 37, 38, 39, 40, 41, 42, 43, 44, 70, 70, 70, 100];
+		let base = GRID[(amts[0] % 16) as usize];
 		if pi == 0 {
 			base
 		} else {
